@@ -311,6 +311,12 @@ class SolveContract(FunctionContract):
         ctx.prove(z3.Not(bad_minmax), 'min_iter_exceeding_max_iter_is_rejected', 'raises')
         ctx.prove(env.span.length > 0, 'empty_span_is_rejected', 'raises')
         ctx.prove(z3.BoolVal(not any(isinstance(r, (slice, NotAPosition)) for _, r in loc)), 'start_or_end_without_single_position_is_rejected', 'raises')
+        # the range is the one the caller asked for: a start / end label that was given is the label whose position was looked up
+        # (the bounds below are taken from those look-ups; a label that is silently ignored must not pass as "the default")
+        for which in ('start', 'end'):
+            if e[which] is not None:
+                found = any(V.is_sym(lab) and z3.eq(V.z3_of(lab), e[which]) for lab, _ in loc)
+                ctx.prove(z3.BoolVal(bool(found)), f'{which}_label_given_by_the_caller_is_looked_up_in_the_span', 'ensures')
         s, t_ = self._bounds(e, g)
         cnt = z3.If(t_ - s + 1 > 0, t_ - s + 1, z3.IntVal(0))
         k = g['ncalls']
